@@ -106,7 +106,7 @@ impl<'a, T: IteTable<BddPtr<'a>>> BddBuilder<'a> for RobddBuilder<'a, T> {
 //%% extract src/builder/bdd/robdd.rs :: impl<'a, T: IteTable<'a, BddPtr<'a>> + Default> BddBuilder<'a> for RobddBuilder<'a, T> :: fn ite_helper
 //%% @attr #[verifier::exec_allows_no_decreases_clause]
 //%% @rewrite 1 /\n        self\.stats\.borrow_mut\(\)\.num_recursive_calls \+= 1;/ => 
-//%% @rewrite 2 /self\.order\.borrow\(\)/ => self.order_ref()
+//%% @rewrite ?2 /self\.order\.borrow\(\)/ => self.order_ref()
 //%% @rewrite 2 /self\.apply_table\.borrow\(\)/ => self.apply_view()
 //%% @rewrite 1 /self\.apply_table\.borrow_mut\(\)\.insert\(/ => self.apply_insert(
 //%% @rewrite 2 /self\.ite\(/ => self.ite_helper(
@@ -182,7 +182,7 @@ impl<'a, T: IteTable<BddPtr<'a>>> RobddBuilder<'a, T> {
 //%% @attr #[verifier::exec_allows_no_decreases_clause]
 //%% @ret r
 //%% @rewrite 1 /\n        self\.stats\.borrow_mut\(\)\.num_recursive_calls \+= 1;/ => 
-//%% @rewrite 1 /self\.order\.borrow\(\)/ => self.order_ref()
+//%% @rewrite ?1 /self\.order\.borrow\(\)/ => self.order_ref()
 //%% @spec
         requires
             self.binv(), ordered(bdd, self.order_view()), self.order_view().has(lbl),
